@@ -1,5 +1,6 @@
 import MosnVerif.Drive.Util
 import MosnVerif.Model.HeaderMaps
+import MosnVerif.Model.RouteFinalize
 /-!
 [c17h10] kind `hm`: the route's header mutations on the real protocol header maps (line format: harness/c17/c17h10.go).
 Model = the instance of `Model/HeaderMaps.lean` for the protocol, driven through the regenerated `evaluateHeaders`, wiring
@@ -126,5 +127,49 @@ def hm (a : List String) (impl : List String) : String :=
       | _, _ => "E E bad-output"
     | _, _, _, _, _, _ => "E E bad-case"
   | _, _ => "E E bad-case"
+
+/-! ### kind `ah`: auto_host_rewrite on a STRICT_DNS cluster through the real proxy core -/
+
+def optS (s : String) : Option (Option String) := if s == "~" then some none else (unhexS s).map some
+def showOpt (o : Option String) : String := match o with | none => "~" | some s => hexS s
+
+open MosnVerif.Model.RouteFinalize MosnVerif.Gen.RouteFinalize in
+/-- the route of an `ah` case: prefix "/", no rewrites of the path, no header mutations; the environment of the third
+host-rewrite branch = (a snapshot of the route's cluster exists, its configured type, the hostname of the upstream host
+selected for the attempt) -/
+def ahRoute (ctype hostRw autoHdr : String) (auto : Bool) (hostname : String) : Route :=
+  { kind := .prefix, matched := "/", cfg := ⟨"", "", false, hostRw, autoHdr, auto⟩, levels := ⟨⟨[], []⟩, ⟨[], []⟩, ⟨[], []⟩⟩,
+    regexReplace := id, env := ⟨true, ctype, hostname⟩ }
+
+open MosnVerif.Model.RouteFinalize in
+def ah (a : List String) (impl : List String) : String :=
+  match a with
+  | [ctype, auto, hostRwH, autoHdrH, hdrValH, hostVarH, _retry] =>
+    match unhexS hostRwH, unhexS autoHdrH, optS hdrValH, optS hostVarH with
+    | some hostRw, some autoHdr, some hdrVal, some hostVar0 =>
+      let hdrs : Hdrs := [(":path", "/a"), (":authority", "orig.example")] ++ (match hdrVal with | some v => [(autoHdr, v)] | none => [])
+      let req : Req := ⟨hdrs, some "/a", hostVar0⟩
+      let hop := fun (hostname : String) => finalizeRequest (ahRoute ctype hostRw autoHdr (auto == "1") hostname) req
+      let want := fun (hostname : String) => specHost (ahRoute ctype hostRw autoHdr (auto == "1") hostname) req
+      match impl with
+      | [n, h0H, v0] =>
+        match unhexS h0H with
+        | some h0 =>
+          let m := s!"{n} {h0H} {showOpt (hop h0).host}"
+          let ok := showOpt (want h0) == v0
+          s!"{if m == s!"{n} {h0H} {v0}" then "A" else "D"} {if ok then "S" else "V"} {m}"
+        | none => "E E bad-output"
+      | [n, h0H, v0, h1H, v1] =>
+        match unhexS h0H, unhexS h1H with
+        | some h0, some h1 =>
+          -- the code finalizes the request once, for the first selected host; the retry re-sends what that left
+          let m := s!"{n} {h0H} {showOpt (hop h0).host} {h1H} {showOpt (hop h0).host}"
+          -- reference: every attempt carries the host its own upstream host calls for
+          let ok := showOpt (want h0) == v0 && showOpt (want h1) == v1
+          s!"{if m == s!"{n} {h0H} {v0} {h1H} {v1}" then "A" else "D"} {if ok then "S" else "V"} {m}"
+        | _, _ => "E E bad-output"
+      | _ => "E E bad-output"
+    | _, _, _, _ => "E E bad-case"
+  | _ => "E E bad-case"
 
 end MosnVerif.Drive.C17HeaderMaps
